@@ -249,10 +249,11 @@ def run_cases(ctx, cases, prop="C14", classify_fn=None):
 
 def run(ctx):
     ctx.make_overlay(need_kernel=True)
-    ctx.regen_all()
+    ctx.regen_all(needed=("py2v_reject.py",))  # Gen/RejectSites.v: the four rejection sites as the source has them now
     ok = ctx.build_models(MODELS)
     if ok:
         ctx.build_props()
+        ctx.build_props("Props/C02g.vo")  # the generated rejection sites (rule, truncation, index spaces, columns) are the model
     cases = load_corpus("C14") + gen_cases(ctx)
     n_eval = nt = 0
     try:
